@@ -22,6 +22,10 @@ pub enum Sender {
     OtherAccountAuthorised,
     ContractAsItself,
     ContractNamingAnAccount,
+    /// the gateway's own address is named as sender and nobody authorises (the gateway is not its own caller)
+    GatewayItselfNobodySigns,
+    /// the gateway's owner / operator is named as sender and does not authorise
+    RoleHolderNotSigning(bool),
 }
 
 #[derive(Clone, Debug, Serialize, Deserialize, PartialEq, Eq)]
@@ -40,6 +44,9 @@ pub struct Case {
     pub addr: Str,
     pub len: u32,
     pub seed: u64,
+    /// the gateway was upgraded by its owner and not yet migrated (a contract-wide mode must not open anything)
+    #[serde(default)]
+    pub window_open: bool,
 }
 
 fn strc() -> impl Strategy<Value = Str> {
@@ -87,7 +94,7 @@ impl Property for C13 {
         "C13"
     }
     fn rule(&self) -> &'static str {
-        "proptest single cases: sender (account with exact authorisation / none / authorisation for another payload / another account's authorisation; probe contract calling as itself / naming an account), destination chain and address strings (empty, ASCII up to 300 bytes, multi-byte UTF-8, invalid UTF-8, up to 12 KB long), payload lengths around the Keccak rate (0,1,31,32,33,135,136,137,271..273,...) up to 64 KiB with case-seeded content. Oracle: success iff the sender authorised (or is the calling contract); then exactly one event by the gateway with topics (contract_called, sender, chain, address, own Keccak-256(payload)) and data = payload, and the gateway's own ledger entries unchanged; otherwise failure, no event, full snapshot equality. non-trivial = every case (the suite has one sample); distinct by Debug hash of the whole case"
+        "proptest single cases: sender (account with exact authorisation / none / authorisation for another payload / another account's authorisation; probe contract calling as itself / naming an account; the gateway's own address, its owner or its operator named as sender with nobody signing), gateway in its ordinary state or upgraded-but-not-migrated, destination chain and address strings (empty, ASCII up to 300 bytes, multi-byte UTF-8, invalid UTF-8, up to 12 KB long), payload lengths around the Keccak rate (0,1,31,32,33,135,136,137,271..273,...) up to 64 KiB with case-seeded content. Oracle: success iff the sender authorised (or is the calling contract); then exactly one event by the gateway with topics (contract_called, sender, chain, address, own Keccak-256(payload)) and data = payload, and the gateway's own ledger entries unchanged; otherwise failure, no event, full snapshot equality. non-trivial = every case (the suite has one sample); distinct by Debug hash of the whole case"
     }
     fn cases(&self, tier: Tier) -> u64 {
         tier.pick(20000, 200000)
@@ -101,19 +108,27 @@ impl Property for C13 {
                 1 => Just(Sender::OtherAccountAuthorised),
                 3 => Just(Sender::ContractAsItself),
                 1 => Just(Sender::ContractNamingAnAccount),
+                1 => Just(Sender::GatewayItselfNobodySigns),
+                1 => any::<bool>().prop_map(Sender::RoleHolderNotSigning),
             ],
             strc(),
             strc(),
             len_strategy(tier),
             any::<u64>(),
+            prop_oneof![3 => Just(false), 1 => Just(true)],
         )
-            .prop_map(|(sender, chain, addr, len, seed)| Case { sender, chain, addr, len, seed })
+            .prop_map(|(sender, chain, addr, len, seed, window_open)| Case { sender, chain, addr, len, seed, window_open })
             .boxed()
     }
 
     fn run(&self, case: &Case, cx: &mut Cx) -> Result<(), String> {
         let env = new_env();
         let gw = deploy_gateway(&env, [1; 32], 0, 0, &[simple_set(1)]).map_err(|e| format!("setup: {}", e))?;
+        if case.window_open {
+            env.mock_all_auths();
+            gw.client.upgrade(&BytesN::from_array(&env, &empty_wasm_hash()));
+            cx.label("migration_window_open");
+        }
         let probe_id = env.register(Caller, ());
         let probe = CallerClient::new(&env, &probe_id);
         let acct = Address::generate(&env);
@@ -169,6 +184,15 @@ impl Property for C13 {
             Sender::AccountUnauthorised | Sender::AccountAuthorisedOtherPayload | Sender::OtherAccountAuthorised => {
                 let r = gw.client.try_call_contract(&acct, &chain, &addr, &payload);
                 (acct.clone(), matches!(r, Ok(Ok(()))), false)
+            }
+            Sender::GatewayItselfNobodySigns => {
+                let r = gw.client.try_call_contract(&gw.id, &chain, &addr, &payload);
+                (gw.id.clone(), matches!(r, Ok(Ok(()))), false)
+            }
+            Sender::RoleHolderNotSigning(owner) => {
+                let who = if owner { gw.owner.clone() } else { gw.operator.clone() };
+                let r = gw.client.try_call_contract(&who, &chain, &addr, &payload);
+                (who, matches!(r, Ok(Ok(()))), false)
             }
             Sender::ContractAsItself => {
                 let r = probe.try_send(&gw.id, &chain, &addr, &payload);
